@@ -4,4 +4,8 @@ import Preflate.Props.C02
 #print axioms Preflate.decStream_encStream
 #print axioms Preflate.parse_valid
 #print axioms Preflate.recompress_analyze
+#print axioms Preflate.parse_prefix
+#print axioms Preflate.recompress_decompress
+#print axioms Preflate.verify_same
+#print axioms Preflate.decompress_prefix
 #print axioms Preflate.context_numbers_match_source
